@@ -21,9 +21,7 @@ import (
 	"bytes"
 	"fmt"
 	"math/big"
-	"os"
 	"runtime"
-	"time"
 	"sort"
 	"strings"
 	"testing"
@@ -42,7 +40,6 @@ func TestMain(m *testing.M) {
 
 const prop = "C10"
 
-var timing = os.Getenv("C10_TIMING") != ""
 
 // Signatures of the defects already confirmed by probes (DESIGN.md §2.4) and found again by
 // this check. Each names one root cause / failing shape.
@@ -56,9 +53,6 @@ const (
 	// governance precompile slices its input without a length check
 	sigGovPanic = "governance-precompile-panics-on-short-input"
 )
-
-// production value of chain/app/evm.EVMGasLimit (asserted against the source in TestBudgetConstant)
-const evmGasLimit uint64 = 100000000
 
 // gas handed to the top-level frame on both sides ("caller-supplied gas" that never binds)
 const topGas uint64 = 1 << 62
@@ -417,14 +411,7 @@ func runCase(leg string) func(c EVMCase, x *h.Ctx) {
 		} else {
 			x.Label("gen:grammar")
 		}
-		var it *result
-		t0 := time.Now()
-		defer func() {
-			if d := time.Since(t0); timing && d > 60*time.Millisecond {
-				fmt.Printf("SLOW %v steps=%d depth=%d budget=%v mutated=%v\n", d, it.tr.steps, it.tr.maxDepth, it.tr.budget, c.Mutated)
-			}
-		}()
-		it = runInTree(c, leg == "deployed")
+		it := runInTree(c, leg == "deployed")
 		if it.panicked != nil {
 			if it.tr.gov {
 				x.Fail(sigGovPanic, "in-tree EVM panicked while a contract called the governance precompile 0xfe: %v\n%s", it.panicked, it.stack)
@@ -457,9 +444,6 @@ func runCase(leg string) func(c EVMCase, x *h.Ctx) {
 			// the reference left the comparable domain although the in-tree run did not: its gas
 			// supply did bind or it read gas. Not comparable; must stay ~0.
 			x.Label("class:reference-gas-bound")
-			if timing {
-				fmt.Printf("REFBOUND budget=%v gas=%v low=%v why=%s in-tree=%s/%s ref=%s/%s\n", rf.tr.budget, rf.tr.sawGas, rf.tr.lowCallGas, rf.tr.why, it.class, it.errText, rf.class, rf.errText)
-			}
 			return
 		}
 		ds := compareResults(it, rf)
